@@ -18,7 +18,7 @@ CHECKS = {
     "C01": dict(
         level="translation_validation", design="4/C01",
         technique="translation validation: Lean 4 kernel-checked equivalence checker (check_sound) fed with the real compiler's output vs the Lean source semantics, on generated programs",
-        text="Every generated program is compiled by the real compiler and each routine is validated against the Lean small-step source semantics on the Lean SSB machine by a checker whose soundness (equal operation/test traces for every outcome of every test, halting preserved) is a kernel-checked theorem over all transition systems and relations. A verdict is per program. In addition, kernel-checked theorems about a statement-by-statement Lean model of the compiler (tied to the real compiler by the exact op-for-op correspondence of C03 on every run): backend_preserves (strip_last_label, LabelFinalizer and OpsLabelJumpToRemover preserve behaviour for ALL well-formed labelled code), frontend_wfl (the front end yields well-formed labelled code for ALL programs under the decidable guard FrontGuard), compile_backend_equiv, and compile_correct_F0 / _F1 / _F2 / _F3: for ALL programs of the fragments F0 (straight-line code, with-blocks, inline contexts), F1 (+ if/elseif/else with ||, not, lone-jump folding, empty blocks, any nesting), F2 (+ forever/while/while not/for with continue and break_loop) and F3 (+ switch/case/default/break with fall-through and shared blocks) the source semantics of every routine is behaviourally equivalent to the SSB machine on the model's compile result. Labels/jump/call, macros, message switches as statements and a few degenerate switch shapes are covered by per-program validation only, hence the level translation_validation for the property as a whole.",
+        text="Every generated program is compiled by the real compiler and each routine is validated against the Lean small-step source semantics on the Lean SSB machine by a checker whose soundness (equal operation/test traces for every outcome of every test, halting preserved) is a kernel-checked theorem over all transition systems and relations. A verdict is per program. In addition, kernel-checked theorems about a statement-by-statement Lean model of the compiler (tied to the real compiler by the exact op-for-op correspondence of C03 on every run): backend_preserves (strip_last_label, LabelFinalizer and OpsLabelJumpToRemover preserve behaviour for ALL well-formed labelled code), frontend_wfl (the front end yields well-formed labelled code for ALL programs under the decidable guard FrontGuard), compile_backend_equiv, and compile_correct_F0 / _F1 / _F2 / _F3 / _F4: for ALL programs of the fragments F0 (straight-line code, with-blocks, inline contexts), F1 (+ if/elseif/else with ||, not, lone-jump folding, empty blocks, any nesting), F2 (+ forever/while/while not/for with continue and break_loop) F3 (+ switch/case/default/break with fall-through and shared blocks) and F4 (+ labels, jump and call anywhere, also into other routines; every label defined once and every mentioned label defined) the source semantics of every routine is behaviourally equivalent to the SSB machine on the model's compile result. About 80 % of the generated programs lie in F4 (evidence: in_F4). Macros, message switches as statements and a few degenerate switch shapes are covered by per-program validation only, hence the level translation_validation for the property as a whole.",
         note=TV_NOTE + "The ANTLR parser and the compiler are not modelled."),
     "C03": dict(
         level="proof", design="4/C03",
